@@ -313,12 +313,21 @@ def _loop_as_comprehension(init, loop, fn_names):
     return ast.copy_location(new, init.value)
 
 
+def _dotted_text(e):
+    parts = []
+    while isinstance(e, ast.Attribute):
+        parts.append(e.attr)
+        e = e.value
+    return '.'.join([e.id] + parts[::-1]) if isinstance(e, ast.Name) else None
+
+
 def canonical_blocks(tree):
     """One shape for statement sequences that have several with the same meaning:
        if c: ..jump  else: REST              -> if c: ..jump ; REST            (jump = return / raise / continue / break)
        while True: if c: break ; S           -> while not c: S                 (no else clause)
        v = [] ; for x in it: v.append(e)     -> v = [e for x in it]            (also {} with v[k] = e, set() with v.add(e);
-                                                                                nested for / if without else; see _loop_as_comprehension)"""
+                                                                                nested for / if without else; see _loop_as_comprehension)
+       with np.errstate(..): S               -> S                              (warning settings change no value)"""
     def scope_names(fn):
         return [x for x in ast.walk(fn) if isinstance(x, ast.Name)]
 
@@ -327,6 +336,15 @@ def canonical_blocks(tree):
         i = 0
         while i < len(block):
             st = block[i]
+            if isinstance(st, ast.With) and all(it.optional_vars is None and isinstance(it.context_expr, ast.Call)
+                                                and _dotted_text(it.context_expr.func) in ('np.errstate', 'numpy.errstate')
+                                                and not it.context_expr.args
+                                                and all(isinstance(k.value, ast.Constant) and k.value.value in ('ignore', 'warn')
+                                                        for k in it.context_expr.keywords)
+                                                for it in st.items):
+                # floating-point warning settings do not change any value: the block is read as its body
+                block = block[:i] + st.body + block[i + 1:]
+                continue
             if isinstance(st, ast.If) and st.body and isinstance(st.body[-1], _JUMPS) and st.orelse:
                 rest = st.orelse
                 st.orelse = []
